@@ -30,4 +30,10 @@ def check(model, tier):
     structure.r17_conform(ctx)
     structure.r14_1_who_may_construct(ctx)
     triviality.r05_2_noop_predicates_agree(ctx, rule="R17.4")
+    from ..rules import sqlplace as _sqlplace
+
+    _sqlplace.r08_3_order_by_scope(ctx, rule="R17.5")
+    from ..rules import merge as _merge
+
+    _merge.r05_4_then(ctx, rule="R17.6")
     return run
